@@ -44,6 +44,7 @@ func main() {
 	sect("aqua", 5, aquaSection)
 	sect("ident", 6, identSection)
 	sect("bond", 8, bondSection)
+	sect("dl", 9, dlSection)
 	if stalls != nil {
 		t0 := time.Now()
 		stalls.join(run)
